@@ -265,8 +265,47 @@ fn c03_items(tier: Tier) -> Vec<(Vec<Wire>, BinPos)> {
     items
 }
 
+/// (round 7) Protocol-level counterpart of the loop checks' independence probe: on ONE thread, a reference
+/// session; then connections that end badly (a stream cut after a complete line of a response, blocking and
+/// async; a handshake that fails after part of a greeting; a malformed greeting); then the reference session
+/// again - it must be observed exactly as before. Deterministic (a fixed order on the calling thread), unlike the
+/// enumeration proper, whose sessions are spread over worker threads.
+fn proto_independence_probe(kind: &str, acc: &mut Acc) {
+    let reference: &[u8] = b"file: a.flac\nTitle: t\nOK\nvolume: 5\nlist_OK\nstate: play\nlist_OK\nOK\nACK [50@0] {play} No such song\n";
+    let run_ref = |flavor: Flavor| {
+        let script = Script { stream: reference, cuts: &[7, 30], end: EndAnswer::Eof, pending_mask: 0, cancel_mask: 0, cancel_twice_mask: 0, send_after_cancel: false, via_command: false };
+        run_session(flavor, &script, 8, false).0
+    };
+    let greet = |g: &[u8], cuts: &[usize], flavor: Flavor| {
+        let script = Script { stream: g, cuts, end: EndAnswer::Eof, pending_mask: 0, cancel_mask: 0, cancel_twice_mask: 0, send_after_cancel: false, via_command: false };
+        run_connect(flavor, &script).0
+    };
+    // (the handshakes first: they report the version, and the first handshake after a failed one is where leftovers show)
+    let before = (greet(b"OK MPD 0.23.5\n", &[5], Flavor::Sync), greet(b"OK MPD 0.23.5\n", &[5], Flavor::Async), run_ref(Flavor::Sync), run_ref(Flavor::Async));
+    for (what, stream) in [("a response cut after a complete line", &b"volume: 40\nstate: pl"[..]), ("a list reply cut after its first frame", &b"n: 1\nlist_OK\nn: 2\n"[..]), ("a response cut inside its binary part", &b"size: 9\nbinary: 9\nabc"[..])] {
+        for flavor in [Flavor::Sync, Flavor::Async] {
+            let script = Script { stream, cuts: &[4], end: EndAnswer::Eof, pending_mask: 0, cancel_mask: 0, cancel_twice_mask: 0, send_after_cancel: false, via_command: false };
+            let _ = run_session(flavor, &script, 8, false);
+            let _ = greet(b"garbage\n", &[], flavor);
+            let _ = greet(b"OK MPD 0.2", &[3], flavor);
+            let after = (greet(b"OK MPD 0.23.5\n", &[5], Flavor::Sync), greet(b"OK MPD 0.23.5\n", &[5], Flavor::Async), run_ref(Flavor::Sync), run_ref(Flavor::Async));
+            acc.sessions += 7;
+            if after != before {
+                acc.viol.push(Violation::new(
+                    format!("{kind}/connection-depends-on-an-earlier-connection"),
+                    format!("after another connection of the same thread ended with {what} ({flavor:?}) and two handshakes failed, the reference stream / greeting is decoded differently: handshakes {:?} / {:?} instead of {:?} / {:?}, sessions {:?} instead of {:?}", after.0, after.1, before.0, before.1, describe_session(&after.2), describe_session(&before.2)),
+                    json!({"kind": "independence-probe"}),
+                ));
+                return;
+            }
+        }
+    }
+}
+
 pub fn run_c03(tier: Tier) -> i32 {
     let mut ctx = Ctx::new("C03", tier, "model_checking");
+    let mut probe = Acc::default();
+    proto_independence_probe("C03", &mut probe);
     ctx.assume("well-formed server output is what mpdref::wire::Wire::encode produces for the bounded grammar (fields over 3 keys x 12 values, 8 binary payloads, 144 errors, single/list/error forms, sequences of responses)");
     ctx.assume("expected values are computed from the abstract response, independently of the parser; encoder and reference decoder of mpdref are cross-checked on every stream");
     let items = c03_items(tier);
@@ -360,7 +399,7 @@ pub fn run_c03(tier: Tier) -> i32 {
             acc
         })
         .reduce(Acc::default, Acc::merge);
-    let acc = acc.merge(acc_multi).merge(acc_hist);
+    let acc = acc.merge(acc_multi).merge(acc_hist).merge(probe);
     let cov = proto_coverage(&acc, "every abstract response of the bounded grammar (tier A: all field lists of <=2 fields over 3 keys x 12 values, and <=1 field x 8 binary payloads, binary first/last; tier B: all lists of <=2/3 frames over 6 representative frames, every error after every partial output; tier C: all sequences of <=2/3 responses over 8 representatives) x every segmentation in the stated sets x {blocking, async}; plus every sequence of <=2/3 large binary components (sizes 10..17000 straddling the 4 KiB buffer and its doublings) as separate responses and as one list, under fill-the-buffer reads, network-like chunk sizes and cuts around every component boundary; connection histories of 200..520 distinct field names followed by a list response read in 24/56/120-byte pieces with the receive abandoned (and a command sent) at its first reads; non-trivial = streams with several responses, a list/error form, a binary part, or a value that mimics a protocol keyword", json!({"all_compositions_upto_len": all_upto, "upto_2_cuts_upto_len": two_upto, "upto_3_cuts_upto_len": three_upto, "long_streams": "every single cut, pairs near structural boundaries, chunk sizes 1,2,3,7,4095,4096,4097"}));
     finish(&ctx, cov, acc.viol)
 }
@@ -458,6 +497,8 @@ fn c02_check_stream(stream: &[u8], sets: &[Vec<usize>], pendings: &[u64], acc: &
 
 pub fn run_c02(tier: Tier) -> i32 {
     let mut ctx = Ctx::new("C02", tier, "model_checking");
+    let mut probe = Acc::default();
+    proto_independence_probe("C02", &mut probe);
     ctx.assume("the response stream starts after the handshake (greeting delivered in its own read: a conforming server does not speak before it is asked)");
     ctx.assume("differential oracle: the blocking connection fed the whole stream in one read is the baseline; no reference model is needed");
     let thorough = tier == Tier::Thorough;
@@ -576,7 +617,7 @@ pub fn run_c02(tier: Tier) -> i32 {
             acc_rep.nontrivial += 1;
         }
     }
-    let mut acc = acc.merge(acc_long).merge(acc_multi).merge(acc_huge).merge(acc_many).merge(acc_rep);
+    let mut acc = acc.merge(acc_long).merge(acc_multi).merge(acc_huge).merge(acc_many).merge(acc_rep).merge(probe);
     acc.samples.push(json!({"well_formed_streams": wf, "truncated_and_corrupted_streams": streams.len() - wf, "long_streams": longs.len()}));
     let cov = proto_coverage(
         &acc,
@@ -591,6 +632,8 @@ pub fn run_c02(tier: Tier) -> i32 {
 
 pub fn run_c10(tier: Tier) -> i32 {
     let mut ctx = Ctx::new("C10", tier, "fault_enumeration");
+    let mut probe = Acc::default();
+    proto_independence_probe("C10", &mut probe);
     ctx.assume("response boundaries are the ones the harness-side encoder recorded (cross-checked with the reference decoder)");
     let thorough = tier == Tier::Thorough;
     let mut items: Vec<(Vec<Wire>, BinPos)> = c03_items(Tier::Quick).into_iter().step_by(tier.pick(4, 1)).collect();
@@ -788,7 +831,7 @@ pub fn run_c10(tier: Tier) -> i32 {
             }
         }
     }
-    let acc = acc.merge(gacc);
+    let acc = acc.merge(gacc).merge(probe);
     let cov = proto_coverage(
         &acc,
         "every stream of the bounded response grammar x every cut position 0..=n (stream truncated there, then EOF) x {one read, one byte at a time, every single cut of the surviving prefix} x {blocking, async, the same with a transport error (connection reset) instead of the end, async with the receive() future dropped at the 1st/2nd/3rd read and called again}; sequences of large binary components (with fields in front, and bare) cut around every component boundary and every 997 bytes; plus every proper prefix of two greetings under all segmentations; non-trivial = (stream, cut position) pairs",
@@ -1117,6 +1160,8 @@ pub fn c18_greetings(tier: Tier) -> Vec<Vec<u8>> {
 }
 
 pub fn c18_proto(tier: Tier) -> Acc {
+    let mut probe = Acc::default();
+    proto_independence_probe("C18", &mut probe);
     let greetings = c18_greetings(tier);
     let all_upto = tier.pick(13, 16);
     greetings
@@ -1173,6 +1218,7 @@ pub fn c18_proto(tier: Tier) -> Acc {
             acc
         })
         .reduce(Acc::default, Acc::merge)
+        .merge(probe)
 }
 
 // ---------------------------------------------------------------------------------------------
